@@ -119,8 +119,8 @@ public:
 
   shared_ptr &operator=(shared_ptr &&other) noexcept
   {
-    wrapper().~shared_ptr_wrapper();
-    other.wrapper().MoveTo(buffer_);
+    shared_ptr tmp{std::move(other)};
+    swap(tmp);
     return *this;
   }
 
@@ -132,8 +132,8 @@ public:
 
   shared_ptr &operator=(const shared_ptr &other) noexcept
   {
-    wrapper().~shared_ptr_wrapper();
-    other.wrapper().CopyTo(buffer_);
+    shared_ptr tmp{other};
+    swap(tmp);
     return *this;
   }
 
